@@ -79,7 +79,7 @@ PROPS = {
     'C07': [('SCALAR-BUILTIN', None), ('SIB-1', None), ('SIB-2', None), ('SIB-3', None), ('TYPES-3', None), ('JSON-SHAPES', None), ('EXT-DISPATCH', None),
             ('ROOTS-AGREE', None), ('EXTENSIONS', None), ('ID-ORDER', None)],
     'C08': [('STATE-INVENTORY', None), ('CACHE-ACCESS', None), ('CACHE-KEY', None), ('LOCK-DISCIPLINE', None), ('NO-AMBIENT', None), ('ORDERED', None)],
-    'C09': [('NORM-ID', None), ('GRAMMAR', None), ('OPT-1', None), ('OPT-2', None), ('DERIVE-ONLY', None)],
+    'C09': [('WIRE-1', inst_has('typename-variant')), ('NORM-ID', None), ('GRAMMAR', None), ('OPT-1', None), ('OPT-2', None), ('DERIVE-ONLY', None)],
     'C10': [('GRAMMAR', None), ('ENUM-SHAPE', None), ('ENUM-OPEN', None), ('ENUM-ZIP', None), ('WIRE-1', inst_has('enum-value')),
             ('OPT-1', inst_has('enum-value')), ('DERIVE-FILTER', None)],
     'C11': [('GRAMMAR', None), ('KW-TABLE', None), ('IDENT-1', None), ('IDENT-2', None), ('WIRE-1', inst_has('field[', 'variant[', 'enum-value', 'floor/')),
